@@ -97,42 +97,48 @@ End Rolling.
 
 (* How the real kernel updates the running sum (regenerated: Gen/TablesGen.gen_rolling_sum_updates).  sum_step above is
    its exact-arithmetic content: t = s + x, the compensation term (s - t) + x resp. (x - t) + s is identically 0 there,
-   and the reset of an emptied window writes the value the sum already has (Proofs/RollingInv: acc = sum of the window).
+   and the reset of an emptied window / the re-summation of the buffer after a non-finite sum write the value the sum
+   already has (Proofs/RollingInv: acc = sum of the window; the model has no infinities).
    In binary64 the term is the exact rounding error of t (Proofs/CompensatedSum.v, Fast2Sum). *)
 From Coq Require Import String.
 Open Scope string_scope.
 Definition rolling_sum_updates : list string :=
-  ["group_sums = np.zeros(ngroups)";
+  ["def _compensated_add(total, comp, x)";
+   "new_total = total + x";
+   "if np.isfinite(new_total)";
+   "if abs(total) >= abs(x)";
+   "comp += total - new_total + x";
+   "else";
+   "comp += x - new_total + total";
+   "end";
+   "end";
+   "return (new_total, comp)";
+   "def _rolling_sum_or_mean_1d";
+   "group_sums = np.zeros(ngroups)";
    "group_comp = np.zeros(ngroups)";
+   "for arr in values";
+   "for val in arr";
    "if group_full";
    "if not is_null(old_val)";
-   "total = group_sums[key] - old_val";
+   "total, comp = _compensated_add(group_sums[key], group_comp[key], -old_val)";
+   "if group_non_null[key] == 0";
+   "total, comp = (0.0, 0.0)";
+   "else";
    "if not np.isfinite(total)";
-   "else";
-   "if abs(group_sums[key]) >= abs(old_val)";
-   "group_comp[key] += group_sums[key] - total - old_val";
-   "else";
-   "group_comp[key] += -old_val - total + group_sums[key]";
+   "total, comp = (0.0, 0.0)";
+   "for j in range(window)";
+   "if j != pos and (not is_null(group_buffers[key, j]))";
+   "total, comp = _compensated_add(total, comp, group_buffers[key, j])";
+   "end";
+   "end";
    "end";
    "end";
    "group_sums[key] = total";
-   "if group_non_null[key] == 0";
-   "group_sums[key] = 0.0";
-   "group_comp[key] = 0.0";
-   "end";
+   "group_comp[key] = comp";
    "end";
    "end";
    "if not val_is_null";
-   "total = group_sums[key] + val";
-   "if not np.isfinite(total)";
-   "else";
-   "if abs(group_sums[key]) >= abs(val)";
-   "group_comp[key] += group_sums[key] - total + val";
-   "else";
-   "group_comp[key] += val - total + group_sums[key]";
-   "end";
-   "end";
-   "group_sums[key] = total";
+   "group_sums[key], group_comp[key] = _compensated_add(group_sums[key], group_comp[key], val)";
    "end";
    "if group_non_null[key] >= min_periods";
    "window_sum = group_sums[key] + group_comp[key]";
@@ -140,5 +146,7 @@ Definition rolling_sum_updates : list string :=
    "out[i] = window_sum / group_non_null[key]";
    "else";
    "out[i] = window_sum";
+   "end";
+   "end";
    "end";
    "end"].
